@@ -187,3 +187,60 @@ def visit_family(E, facts, prop, cls_qualname, kind, make_self, pre, post, allow
     ex = exclude(node) if (exclude and node is not None) else None
     return outcomes_to_results(E, base, src_of(handler), res, lambda path, v: post(path, node, v), allowed_exc, wt,
                                timeout_ms, exclude=ex)
+
+
+ERR_PREFIX = "raise:"
+
+
+def summarize(E, name, fref, nargs=1, self_arg=None, max_paths=400, pre=None):
+    """Strongest postcondition of a pure repo function, derived mechanically: explore every path of the
+    real source with symbolic arguments and turn (path condition, result) pairs into one DefFun body.
+    Calls the function makes to itself (directly or through helpers) must be mapped to the returned
+    DefFun by a contract the caller installs *before* calling summarize.  An exception on a path is
+    encoded as ExtV("raise:<Class>")."""
+    from .deffun import DefFun
+    from .symexec import Sym
+    U = E.U
+    params = [z3.Const(f"{name}!a{i}", U.PV) for i in range(nargs)]
+    holder = {}
+
+    def body_fn(*args):
+        b = holder["body"]
+        return z3.substitute(b, *zip(params, args))
+
+    df = DefFun(name, [U.PV] * nargs, U.PV, body_fn)
+    df.ready = False                # no unfolding while the body is being derived
+    holder["df"] = df
+
+    def runner(path):
+        args = [Sym(p) for p in params]
+        if pre is not None:
+            path.assume(pre(*params))
+        if self_arg is not None:
+            args = [self_arg] + args
+        return E.run_function(path, fref, args)
+
+    def finish():
+        res = explore(E, runner, max_paths=max_paths)
+        cases = []
+        for path, out in res:
+            cond = z3.And(*path.pc) if path.pc else z3.BoolVal(True)
+            if out[0] == "return":
+                val = E.to_pv(out[1])
+            elif out[0] == "raise":
+                val = U.extv(ERR_PREFIX + out[1].name, [])
+            else:
+                raise Unsupported(f"summarize({name}): {out}")
+            cases.append((cond, val))
+        body = U.extv(ERR_PREFIX + "unreachable", [])
+        for cond, val in reversed(cases):
+            body = z3.If(cond, val, body)
+        if pre is not None:
+            # the summary is derived (and only claimed) under the precondition
+            body = z3.If(pre(*params), body, U.extv(ERR_PREFIX + "precondition", []))
+        holder["body"] = body
+        holder["cases"] = cases
+        df.ready = True
+        return df, cases
+
+    return df, finish
